@@ -35,6 +35,17 @@ Wave 5 additions (all behind per-unit spec flags; the wave-4 units regenerate by
                   = repeat 0 d, [np.empty(1)] * d = repeat c d, parse_one_d(x) = x on int sequences)
 Units: GenSampler (GCPSampler.__init__ + _prepare_function_sampler + _prepare_gradient_sampler), GenHosvdFull (whole hosvd),
 GenCpAlsPre (prologue of cp_als), GenGcpOpt (gcp_opt + _get_initial_guess).
+
+Wave 7 additions (per-unit spec flags again; the nine older units regenerate byte-identical):
+  continue        `continue` = next round of the innermost loop; like `break` it is a jump: the statements that follow an `if` containing it
+                  are duplicated into both branches (the inner loop of the cp_apr row drivers is therefore emitted twice: sparse / dense copy)
+  col_vectors     np.zeros((n, 1)) / -np.ones((n, 1)) are length-n lists like np.zeros((n,)) / -np.ones((n,))
+  maybe_free      a loop may read a variable that is possibly unbound at loop entry (assigned under an `if` before the loop): it is passed as
+                  an option, reading it unbound is None (NameError); once read in the body it is re-wrapped for the recursive call
+  opaque_stmt entries with "template" (no kernel) are TRUSTED rewritings of a whole statement (`lbfgsPos -= 1` = Nat.pred, reached only when
+  lbfgsPos != 0); trusted expression templates of the row drivers: `isSparse is False` = negb, `lbfgsMem - 1` = Nat.pred (lbfgsMem >= 1),
+  np.mod(a, b) = a mod b (b >= 1)
+Units: GenCpAprPdnr (tt_cp_apr_pdnr), GenCpAprPqnr (tt_cp_apr_pqnr): region `M = init.copy()` .. `return (M, output)`.
 """
 import ast
 import json
@@ -42,7 +53,7 @@ import os
 import re
 import sys
 
-UNITS = ["GenSolver", "GenHosvd", "GenCpAls", "GenTuckerAls", "GenCpAprMu", "GenSampler", "GenHosvdFull", "GenCpAlsPre", "GenGcpOpt"]
+UNITS = ["GenSolver", "GenHosvd", "GenCpAls", "GenTuckerAls", "GenCpAprMu", "GenSampler", "GenHosvdFull", "GenCpAlsPre", "GenGcpOpt", "GenCpAprPdnr", "GenCpAprPqnr"]
 
 
 class Abort(Exception):
@@ -88,8 +99,9 @@ class Guards:
 
 
 class Ctx:
-    def __init__(self, brk=None):
+    def __init__(self, brk=None, cnt=None):
         self.brk = brk         # env -> text  (None outside loops)
+        self.cnt = cnt         # env -> text of `continue` (wave 7; None outside loops)
 
 
 class Skel:
@@ -266,6 +278,8 @@ class Skel:
                     add(n)
             elif isinstance(s, (ast.Break, ast.Raise, ast.Assert, ast.Return)):
                 pass
+            elif isinstance(s, ast.Continue) and self.spec.get("continue"):
+                pass
             else:
                 raise Abort(f"unsupported statement {type(s).__name__} at line {getattr(s, 'lineno', '?')}")
         return out
@@ -354,6 +368,8 @@ class Skel:
                 ex(s.value)
             elif isinstance(s, (ast.Break, ast.Raise)):
                 pass
+            elif isinstance(s, ast.Continue) and self.spec.get("continue"):
+                pass
             else:
                 raise Abort(f"unsupported statement {type(s).__name__}")
         for s in stmts:
@@ -367,7 +383,7 @@ class Skel:
         for s in stmts:
             if self.droppable(s):
                 continue
-            if isinstance(s, (ast.Break, ast.Raise, ast.Return, ast.Assert)):
+            if isinstance(s, (ast.Break, ast.Raise, ast.Return, ast.Assert, ast.Continue)):
                 return True
             if isinstance(s, ast.If) and (self.has_signal(s.body) or self.has_signal(s.orelse)):
                 return True
@@ -614,7 +630,8 @@ class Skel:
             return f"(@nil {self.atom(hint[5:])})", hint
         if isinstance(e, ast.UnaryOp) and isinstance(e.op, ast.USub) and isinstance(e.operand, ast.Call) and dotted(e.operand.func) == "np.ones":
             c = e.operand
-            if len(c.args) == 1 and not c.keywords and isinstance(c.args[0], ast.Tuple) and len(c.args[0].elts) == 1 and hint and \
+            if len(c.args) == 1 and not c.keywords and isinstance(c.args[0], ast.Tuple) and (len(c.args[0].elts) == 1 or (
+                    self.spec.get("col_vectors") and len(c.args[0].elts) == 2 and self.const_int(c.args[0].elts[1]) == 1)) and hint and \
                     hint.startswith("list ") and hint[5:] in self.spec.get("neg_ones", {}):
                 n, tn = self.expr(c.args[0].elts[0], env, g)
                 if tn == "nat":
@@ -702,7 +719,8 @@ class Skel:
             args = self.kernel_args(e, k, env, g)
             self.use_kernel(k["coq"], k["type"])
             return " ".join([k["coq"]] + args), k.get("ret")
-        if d == "np.zeros" and len(e.args) == 1 and not e.keywords and isinstance(e.args[0], ast.Tuple) and len(e.args[0].elts) == 1:
+        if d == "np.zeros" and len(e.args) == 1 and not e.keywords and isinstance(e.args[0], ast.Tuple) and \
+                (len(e.args[0].elts) == 1 or (self.spec.get("col_vectors") and len(e.args[0].elts) == 2 and self.const_int(e.args[0].elts[1]) == 1)):
             n, tn = self.expr(e.args[0].elts[0], env, g)
             if tn != "nat" or not hint or not hint.startswith("list ") or hint[5:] not in self.zeros:
                 raise Abort(f"np.zeros `{txt}` for target type {hint}")
@@ -814,6 +832,10 @@ class Skel:
             if ctx.brk is None:
                 raise Abort("break outside a loop")
             return ctx.brk(env)
+        if isinstance(s, ast.Continue) and self.spec.get("continue"):
+            if ctx.cnt is None:
+                raise Abort("continue outside a loop")
+            return ctx.cnt(env)
         if isinstance(s, ast.Raise):
             return "None"
         if isinstance(s, ast.Assert):
@@ -1011,6 +1033,12 @@ class Skel:
                             names.append(v)
         names.sort(key=lambda v: name_pos(txt, v))
         names = [v for v in names if v not in k.get("ignore", [])]
+        if "template" in k:          # (wave 7) trusted rewriting of a whole statement, single target, no effect
+            if len(k["targets"]) != 1 or k.get("effect"):
+                raise Abort(f"template statement `{txt}`")
+            val = k["template"].format(**{v.replace(".", "_"): self.read_var(v, env, g) for v in names})
+            env2 = self.after(env, g, list(k["targets"]))
+            return self.guard(g, f"let {cname(k['targets'][0])} := {val} in\n" + cont(env2))
         self.use_kernel(k["coq"], k["type"])
         args = [self.read_var(v, env, g) for v in names]
         tg = k["targets"]
@@ -1148,7 +1176,7 @@ class Skel:
         for s in stmts:
             if self.droppable(s):
                 continue
-            if isinstance(s, (ast.Break, ast.Return)):
+            if isinstance(s, (ast.Break, ast.Return, ast.Continue)):
                 return True
             if isinstance(s, ast.If) and (self.has_jump(s.body) or self.has_jump(s.orelse)):
                 return True
@@ -1283,7 +1311,7 @@ class Skel:
         body_reads = self.reads(s.body)
         free = sorted(n for n in body_reads if n in env0 and n not in carried and n != tv)
         for n in free:
-            if env0[n] != "bound":
+            if env0[n] != "bound" and not (self.spec.get("maybe_free") and env0[n] == "maybe"):
                 raise Abort(f"loop at line {s.lineno} reads `{n}`, which may be unbound when the loop is entered")
         self.nloop += 1
         lname = f"{self.fname}_loop{self.nloop}"
@@ -1298,12 +1326,14 @@ class Skel:
         st_type = " * ".join(self.atom(ty(n, states[n])) for n in carried) if carried else "unit"
         free_decl = "".join(f" ({cname(n)} : {ty(n, env0[n])})" for n in free)
         free_args = "".join(" " + cname(n) for n in free)
-        ctx_l = Ctx(lambda eb: "Some " + self.atom(self.tuple_of(carried, states, eb)))
+        # (maybe_free units: a free variable that was possibly unbound at loop entry is an option; once read in the body it is unwrapped)
+        free_in = lambda eb: "".join(f" (Some {cname(n)})" if (env0[n] == "maybe" and eb.get(n) == "bound") else " " + cname(n) for n in free)
+        ctx_l = Ctx(lambda eb: "Some " + self.atom(self.tuple_of(carried, states, eb)), lambda eb: nxt(eb))
         if kind == "range":
-            nxt = lambda eb: f"{lname}{free_args} fuel' (S i) {self.atom(self.tuple_of(carried, states, eb))}"
+            nxt = lambda eb: f"{lname}{free_in(eb)} fuel' (S i) {self.atom(self.tuple_of(carried, states, eb))}"
             bind_t = f"let {cname(tv)} := i in\n"
         else:
-            nxt = lambda eb: f"{lname}{free_args} xs' {self.atom(self.tuple_of(carried, states, eb))}"
+            nxt = lambda eb: f"{lname}{free_in(eb)} xs' {self.atom(self.tuple_of(carried, states, eb))}"
             bind_t = f"let {cname(tv)} := x in\n"
         body = self.block(list(s.body), env_b, ctx_l, nxt)
         pat = self.pattern_of(carried)
@@ -1978,7 +2008,143 @@ GCPOPT = {
     ],
 }
 
-SPECS = [SOLVER, HOSVD, CPALS, TUCKER, CPAPR, SAMPLER, HOSVDFULL, CPALSPRE, GCPOPT]
+# ---- wave 7: cp_apr.py::tt_cp_apr_pdnr, region `M = init.copy()` .. `return (M, output)` (outer / mode / row / inner loops) ---------
+# flags: continue (`continue` = next round of the innermost loop), col_vectors (np.zeros((n, 1)) / -np.ones((n, 1)) are length-n lists)
+_ROWS_KERNELS = {
+    "init.copy": {"identity": True},
+    "M.normalize/normtype": {"coq": "k_normalize", "type": "T_K -> nat -> T_K", "mutates": True},
+    "M.normalize/mode,normtype": {"coq": "k_normalize_mode", "type": "T_K -> nat -> nat -> T_K", "mutates": True},
+    "M.normalize/normtype,sort": {"coq": "k_normalize_sort", "type": "T_K -> nat -> bool -> T_K", "mutates": True},
+    "M.redistribute/mode": {"coq": "k_redistribute", "type": "T_K -> nat -> T_K", "mutates": True},
+    "time.time": {"coq": "k_time", "type": "T_W -> T_W * T_F", "effect": True, "ret": "T_F"},
+    "tt_loglikelihood": {"coq": "k_loglikelihood", "type": "T_X -> T_K -> T_F", "ret": "T_F"},
+}
+_ROWS_OPAQUE_EXPR = {
+    "isinstance(input_tensor, ttb.sptensor)": {"coq": "k_is_sptensor", "type": "T_X -> bool", "ret": "bool"},
+    "isinstance(input_tensor, ttb.tensor)": {"coq": "k_is_tensor", "type": "T_X -> bool", "ret": "bool"},
+    "isSparse is False": {"template": "negb {isSparse}", "uses": [], "ret": "bool"},
+    "M.factor_matrices[n].shape[0]": {"coq": "k_num_rows", "type": "T_K -> nat -> nat", "ret": "nat"},
+    "np.where(input_tensor.subs[:, n] == jj)[0]": {"coq": "k_row_indices", "type": "T_X -> nat -> nat -> T_Idx", "ret": "T_Idx"},
+    "np.ones((1, rank))": {"coq": "k_ones_row", "type": "nat -> T_Row", "ret": "T_Row"},
+    "sparse_indices.size == 0": {"coq": "k_idx_empty", "type": "T_Idx -> bool", "ret": "bool"},
+    "input_tensor.vals[sparse_indices]": {"coq": "k_vals_at", "type": "T_X -> T_Idx -> T_Row", "ret": "T_Row"},
+    "X_mat[jj, :]": {"coq": "k_xmat_row", "type": "T_Xmat -> nat -> T_Row", "ret": "T_Row"},
+    "np.any(x_row)": {"coq": "k_any_row", "type": "T_Row -> bool", "ret": "bool"},
+    "M.factor_matrices[n][jj, :]": {"coq": "k_get_row", "type": "T_K -> nat -> nat -> T_Row", "ret": "T_Row"},
+    "(e_vec - phi_row).transpose()": {"coq": "k_grad", "type": "T_Row -> T_Row -> T_Row", "ret": "T_Row"},
+    "np.max(np.abs(np.minimum(m_row, gradM.transpose()[0])))": {"coq": "k_kkt_row", "type": "T_Row -> T_Row -> T_F", "ret": "T_F"},
+    "actual_red / -predicted_red": {"coq": "k_rho", "type": "T_F -> T_F -> T_F", "ret": "T_F"},
+    "predicted_red == 0": {"coq": "k_is_zeroF", "type": "T_F -> bool", "ret": "bool"},
+    "rho < 1 / 4": {"coq": "k_lt_quarter", "type": "T_F -> bool", "ret": "bool"},
+    "rho > 3 / 4": {"coq": "k_gt_three_quarters", "type": "T_F -> bool", "ret": "bool"},
+    "np.count_nonzero(M.factor_matrices[n] == 0)": {"coq": "k_count_zero", "type": "T_K -> nat -> nat", "ret": "nat"},
+    "np.max(kktModeViolations)": {"coq": "k_max", "type": "list T_F -> T_F", "ret": "T_F"},
+    "np.maximum(stoptol, kktViolations[iteration]) / 100.0": {"coq": "k_inexact_tol", "type": "T_F -> list T_F -> nat -> T_F", "ret": "T_F"},
+    "divmod(iteration, printitn)[1] == 0": {"coq": "k_print_now", "type": "nat -> nat -> bool", "ret": "bool"},
+    "-tt_loglikelihood(input_tensor, M)": {"coq": "k_neg_loglikelihood", "type": "T_X -> T_K -> T_F", "ret": "T_F"},
+}
+_ROWS_OPAQUE_STMT = {
+    "Pi = tt_calcpi_prowsubprob(input_tensor, M, rank, n, N, isSparse)":
+        {"coq": "k_calcpi_dense", "type": "T_X -> T_K -> nat -> nat -> nat -> bool -> T_Pi", "targets": ["Pi"]},
+    "Pi = tt_calcpi_prowsubprob(input_tensor, M, rank, n, N, isSparse, sparse_indices)":
+        {"coq": "k_calcpi_sparse", "type": "T_X -> T_K -> nat -> nat -> nat -> bool -> T_Idx -> T_Pi", "targets": ["Pi"]},
+    "X_mat = input_tensor.to_tenmat(np.array([n], order=input_tensor.order), copy=False).data":
+        {"coq": "k_unfold", "type": "T_X -> nat -> T_Xmat", "targets": ["X_mat"]},
+    "M.factor_matrices[n][jj, :] = 0": {"coq": "k_zero_row", "type": "T_K -> nat -> nat -> T_K", "targets": ["M"]},
+    "M.factor_matrices[n][jj, :] = m_row": {"coq": "k_set_row", "type": "T_K -> nat -> nat -> T_Row -> T_K", "targets": ["M"]},
+    "[phi_row, ups_row] = calc_partials(isSparse, Pi, epsDivZero, x_row, m_row)":
+        {"coq": "k_calc_partials", "type": "bool -> T_Pi -> T_F -> T_Row -> T_Row -> T_Row * T_Row", "targets": ["phi_row", "ups_row"]},
+    "mu *= 10": {"coq": "k_mu_times_10", "type": "T_F -> T_F", "targets": ["mu"]},
+    "mu *= 7 / 2": {"coq": "k_mu_times_7_2", "type": "T_F -> T_F", "targets": ["mu"]},
+    "mu *= 2 / 7": {"coq": "k_mu_times_2_7", "type": "T_F -> T_F", "targets": ["mu"]},
+}
+_ROWS_VARS = {
+    "M": "T_K", "isSparse": "bool", "fnEvals": "list nat", "fnVals": "list T_F", "kktViolations": "list T_F", "nInnerIters": "list nat",
+    "nzeros": "list nat", "times": "list T_F", "dispLineWarn": "bool", "start": "T_F", "sparseIx": "list (list T_Idx)",
+    "row_indices": "list T_Idx", "num_rows": "nat", "jj": "nat", "n": "nat", "e_vec": "T_Row", "rowsubprobStopTol": "T_F", "iteration": "nat",
+    "isConverged": "bool", "kktModeViolations": "list T_F", "countInnerIters": "list nat", "Pi": "T_Pi", "X_mat": "T_Xmat",
+    "isRowNOTconverged": "list nat", "mu": "T_F", "sparse_indices": "T_Idx", "x_row": "T_Row", "m_row": "T_Row", "innerIterMaximum": "nat",
+    "i": "nat", "phi_row": "T_Row", "ups_row": "T_Row", "gradM": "T_Row", "kkt_violation": "T_F", "search_dir": "T_Row",
+    "predicted_red": "T_F", "m_rowNew": "T_Row", "f_old": "T_F", "f_unit": "T_F", "num_evals": "nat", "actual_red": "T_F", "rho": "T_F",
+    "num_zero": "nat", "t_stop": "T_F", "obj": "T_F", "output": "output",
+}
+_ROWS_COMMON = {
+    "file": "pyttb/cp_apr.py", "start": "M = init.copy()", "end": "return (M, output)",
+    "types": ["T_W", "T_F", "T_K", "T_X", "T_Pi", "T_Xmat", "T_Idx", "T_Row"],
+    "consts": [("c_leF", "T_F -> T_F -> bool"), ("c_zeroF", "T_F"), ("c_m1F", "T_F"), ("c_subF", "T_F -> T_F -> T_F")],
+    "ordered": {"T_F": "c_leF"}, "zeros": {"T_F": "c_zeroF", "nat": "0"}, "neg_ones": {"T_F": "c_m1F"}, "sub": {"T_F": "c_subF"},
+    "mutable": ["T_K"], "continue": True, "col_vectors": True, "maybe_free": True,
+    "drop_vars": ["normTensor", "normresidual", "fit", "f_new"], "drop_keys": ["params"], "return_dicts": {"output": True},
+}
+CPAPR_PDNR = {
+    "name": "GenCpAprPdnr",
+    "functions": [dict(_ROWS_COMMON, **{
+        "name": "cp_apr_pdnr", "func": "tt_cp_apr_pdnr",
+        "params": [("$w", "T_W"), ("input_tensor", "T_X"), ("rank", "nat"), ("init", "T_K"), ("stoptol", "T_F"), ("stoptime", "T_F"), ("maxiters", "nat"),
+                   ("maxinneriters", "nat"), ("epsDivZero", "T_F"), ("printitn", "nat"), ("printinneritn", "nat"), ("epsActive", "T_F"),
+                   ("mu0", "T_F"), ("precompinds", "bool"), ("inexact", "bool"), ("N", "nat")],
+        "vars": _ROWS_VARS,
+        "kernels": _ROWS_KERNELS,
+        "opaque_expr": _ROWS_OPAQUE_EXPR,
+        "opaque_stmt": dict(_ROWS_OPAQUE_STMT, **{
+            "search_dir, predicted_red = get_search_dir_pdnr(Pi, ups_row, rank, gradM.transpose()[0], m_row, mu, epsActive)":
+                {"coq": "k_search_dir_pdnr", "type": "T_Pi -> T_Row -> nat -> T_Row -> T_Row -> T_F -> T_F -> T_Row * T_F",
+                 "targets": ["search_dir", "predicted_red"]},
+            # f_new is only printed (drop variable): the kernel answers the four values the skeleton uses
+            "m_rowNew, f_old, f_unit, f_new, num_evals = tt_linesearch_prowsubprob(search_dir.transpose()[0], gradM.transpose(), m_row, 1, 1 / 2, 10, 0.0001, isSparse, x_row, Pi, phi_row, dispLineWarn)":
+                {"coq": "k_linesearch", "type": "T_Row -> T_Row -> T_Row -> bool -> T_Row -> T_Pi -> T_Row -> bool -> T_Row * T_F * T_F * nat",
+                 "targets": ["m_rowNew", "f_old", "f_unit", "num_evals"]},
+        }),
+    })],
+}
+
+# ---- wave 7: cp_apr.py::tt_cp_apr_pqnr, same region; the L-BFGS memory (delm, delg) is an opaque value, rho a list, lbfgsPos a nat ----
+_PQNR_VARS = dict({k: v for k, v in _ROWS_VARS.items() if k not in ("rho", "mu", "ups_row", "predicted_red", "m_rowNew", "f_old", "f_unit", "actual_red", "e_vec", "rowsubprobStopTol")},
+                  **{"delm": "T_Mem", "delg": "T_Mem", "rho": "list T_F", "lbfgsPos": "nat", "m_rowOLD": "T_Row", "gradOLD": "T_Row", "tmp_delm": "T_Row",
+                     "tmp_delg": "T_Row", "tmp_delm_dot": "T_F", "tmp_rho": "T_F"})
+CPAPR_PQNR = {
+    "name": "GenCpAprPqnr",
+    "functions": [dict(_ROWS_COMMON, **{
+        "name": "cp_apr_pqnr", "func": "tt_cp_apr_pqnr", "annassign": True,
+        "types": ["T_W", "T_F", "T_K", "T_X", "T_Pi", "T_Xmat", "T_Idx", "T_Row", "T_Mem"],
+        "params": [("$w", "T_W"), ("input_tensor", "T_X"), ("rank", "nat"), ("init", "T_K"), ("stoptol", "T_F"), ("stoptime", "T_F"), ("maxiters", "nat"),
+                   ("maxinneriters", "nat"), ("epsDivZero", "T_F"), ("printitn", "nat"), ("printinneritn", "nat"), ("epsActive", "T_F"),
+                   ("lbfgsMem", "nat"), ("precompinds", "bool"), ("N", "nat")],
+        "vars": _PQNR_VARS,
+        "kernels": _ROWS_KERNELS,
+        "opaque_expr": dict({k: v for k, v in _ROWS_OPAQUE_EXPR.items() if k.startswith(("isinstance", "M.factor", "np.where", "sparse_indices", "input_tensor.vals",
+                                                                                           "X_mat", "np.any(x_row)", "np.count", "np.max(kktMode", "divmod", "-tt_log"))}, **{
+            "np.zeros((rank, lbfgsMem))": {"coq": "k_zeros_mem", "type": "nat -> nat -> T_Mem", "ret": "T_Mem"},
+            "np.empty((), dtype=m_row.dtype)": {"coq": "k_empty_row", "type": "T_Row -> T_Row", "ret": "T_Row"},
+            "np.max(np.abs(np.minimum(m_row, gradM)))": {"coq": "k_kkt_row", "type": "T_Row -> T_Row -> T_F", "ret": "T_F"},
+            "m_row - m_rowOLD": {"coq": "k_row_sub", "type": "T_Row -> T_Row -> T_Row", "ret": "T_Row"},
+            "gradM - gradOLD": {"coq": "k_row_sub", "type": "T_Row -> T_Row -> T_Row", "ret": "T_Row"},
+            "tmp_delm.dot(tmp_delg.transpose())": {"coq": "k_row_dot", "type": "T_Row -> T_Row -> T_F", "ret": "T_F"},
+            "np.any(tmp_delm_dot == 0)": {"coq": "k_is_zeroF", "type": "T_F -> bool", "ret": "bool"},
+            "1 / tmp_delm_dot": {"coq": "k_recip", "type": "T_F -> T_F", "ret": "T_F"},
+            "rho[lbfgsMem - 1] > 0": {"coq": "k_last_rho_positive", "type": "list T_F -> nat -> bool", "ret": "bool"},
+            # trusted rewritings on non-negative ints (lbfgsMem >= 1; `lbfgsPos -= 1` is reached only when lbfgsPos != 0)
+            "lbfgsMem - 1": {"template": "(Nat.pred {lbfgsMem})", "uses": [], "ret": "nat"},
+            "np.mod(lbfgsPos, lbfgsMem)": {"template": "({lbfgsPos} mod {lbfgsMem})", "uses": [], "ret": "nat"},
+        }),
+        "opaque_stmt": dict({k: v for k, v in _ROWS_OPAQUE_STMT.items() if k.startswith(("Pi =", "X_mat =", "M.factor"))}, **{
+            "gradM, phi_row = calc_grad(isSparse, Pi, epsDivZero, x_row, m_row)":
+                {"coq": "k_calc_grad", "type": "bool -> T_Pi -> T_F -> T_Row -> T_Row -> T_Row * T_Row", "targets": ["gradM", "phi_row"]},
+            # the three results that are not used (`_`, `_`, f_new: only printed) are dropped from the line-search answers
+            "m_row, _, _, f_new, num_evals = tt_linesearch_prowsubprob(-gradM.transpose(), gradM.transpose(), m_rowOLD, 1, 1 / 2, 10, 0.0001, isSparse, x_row, Pi, phi_row, dispLineWarn)":
+                {"coq": "k_linesearch_first", "type": "T_Row -> T_Row -> bool -> T_Row -> T_Pi -> T_Row -> bool -> T_Row * nat", "targets": ["m_row", "num_evals"]},
+            "m_row, _, _, f_new, num_evals = tt_linesearch_prowsubprob(search_dir.transpose()[0], gradOLD.transpose(), m_rowOLD, 1, 1 / 2, 10, 0.0001, isSparse, x_row, Pi, phi_row, dispLineWarn)":
+                {"coq": "k_linesearch", "type": "T_Row -> T_Row -> T_Row -> bool -> T_Row -> T_Pi -> T_Row -> bool -> T_Row * nat", "targets": ["m_row", "num_evals"]},
+            "search_dir = get_search_dir_pqnr(m_row, gradM, epsActive, delm, delg, rho, lbfgsPos, i, dispLineWarn)":
+                {"coq": "k_search_dir_pqnr", "type": "T_Row -> T_Row -> T_F -> T_Mem -> T_Mem -> list T_F -> nat -> nat -> bool -> T_Row", "targets": ["search_dir"]},
+            "delm[:, lbfgsPos] = tmp_delm": {"coq": "k_set_col", "type": "T_Mem -> nat -> T_Row -> T_Mem", "targets": ["delm"]},
+            "delg[:, lbfgsPos] = tmp_delg": {"coq": "k_set_col", "type": "T_Mem -> nat -> T_Row -> T_Mem", "targets": ["delg"]},
+            "lbfgsPos -= 1": {"template": "(Nat.pred {lbfgsPos})", "targets": ["lbfgsPos"]},
+        }),
+    })],
+}
+
+SPECS = [SOLVER, HOSVD, CPALS, TUCKER, CPAPR, SAMPLER, HOSVDFULL, CPALSPRE, GCPOPT, CPAPR_PDNR, CPAPR_PQNR]
 
 
 def main(argv):
